@@ -99,6 +99,11 @@ typedef struct VmState {
     /* Error info */
     VmResult last_error;
     char error_msg[256];
+#ifdef NANOLANG_VERIF
+    /* verification hook H1: instruction budget + executed-opcode histogram */
+    uint64_t verif_fuel;          /* 0 = unlimited; otherwise instructions left */
+    uint64_t verif_opcount[256];
+#endif
 } VmState;
 
 /* ========================================================================
